@@ -14,7 +14,7 @@ impl Monitor for C07 {
         "C07"
     }
     fn gens(&self, tier: Tier) -> Vec<Gen> {
-        vec![gen("data-twins", tier.pick(12_000, 600_000, 8)), gen("bitflip-twins", tier.pick(300, 10_000, 1)), gen("join-twins", tier.pick(3_000, 100_000, 4))]
+        vec![gen("data-twins", tier.pick(12_000, 3_000_000, 8)), gen("bitflip-twins", tier.pick(300, 40_000, 1)), gen("join-twins", tier.pick(3_000, 500_000, 4))]
     }
     fn rule(&self) -> String {
         "Two devices with identical configuration and RNG stream are driven in lock-step by the same history; twin B additionally receives frames the reference codec classifies as rejected (random bytes, bit flips of an authentic frame, authentic frame of another session, exact replay, stale counter, far-future counter, the device's own uplink reflected, JoinAccept while joined / under a wrong key / corrupted, oversized frames) at receive opportunities where twin A hears nothing (RX1, RX2, Class C gaps). Histories first create state to lose (pending sticky answers, owed ACK, ADR counter, near-wrap counters). Every radio request and response of the two twins is compared to the end of the history. bitflip-twins: every single-bit flip of one authentic frame. Class = (front-end, region, what-was-pending, rejected-frame class, insertion point).".into()
